@@ -14,23 +14,23 @@
 (*               extent 1, one Ellipsis expands to the missing axes.        *)
 (*  Impl-shaped: __pyx_memoryview_slice_memviewslice (MemoryView_C.c) per   *)
 (*               dimension with its have_start/have_stop/have_step flags,   *)
-(*               its clamping branches and its C (truncating) division; the *)
-(*               SliceIndex template for integers; unellipsify of           *)
-(*               Compiler/MemoryView.py (typed path) and                    *)
+(*               its clamping branches (which differ from CPython's for a   *)
+(*               stop >= extent under a negative step) and its length       *)
+(*               computation; the SliceIndex template for integers;         *)
+(*               unellipsify of Compiler/MemoryView.py (typed path) and     *)
 (*               _unellipsify_index_tuple of MemoryView.pyx (object path).  *)
-(*               The transcription carries two switches, fc and fd, that    *)
-(*               apply the two one-line repairs described in notes/C16.md:  *)
-(*               a case is a *hazard* of class "clamp" / "div" when the     *)
-(*               code as it is deviates from the reference and the repair   *)
-(*               alone removes the deviation.                               *)
+(*               Transcribed from the code after commit 20608b6d6, which    *)
+(*               repaired the two deviations this model had exhibited       *)
+(*               (clamp to 0 under a negative step; C-division length).     *)
+(*               The cells on which they occurred are still marked (nbs,    *)
+(*               nbe, agd) so that the binding can show they are replayed.  *)
 (*                                                                          *)
 (* Behaviours: Init picks an input buffer (extents, per-axis layout:        *)
 (* contiguous / every second element / reversed, all inside a padded base), *)
 (* every step applies one index expression to the current (reference) view, *)
 (* so a history is a chain a[e1][e2]...; every state after at least one     *)
 (* step is a published case: expected observation <err, shape, strides,     *)
-(* element ids>, hazard class and the observation predicted for the code    *)
-(* as it is.  A chain ends at an error, a hazard, a 0-dim or empty result.  *)
+(* element ids>.  A chain ends at an error, a 0-dim or an empty result.     *)
 EXTENDS Integers, Sequences, FiniteSets, TLC, Json
 
 CONSTANTS Inits,      \* set of <<mode, lens, lays>>; mode: "full1" 1-D, whole quantifier domain | "chain1" 1-D chains | "nd" 1..3-D menus
@@ -130,34 +130,34 @@ Expand(e, nd) == Expand_(e, Fill(nd - NReal(e)), {p \in DOMAIN e : e[p].k = "e"}
 
 ---------------------------------------------------------------------------
 (* implementation-shaped *)
-ImplLen_(diff, step, q, fd) ==      \* q is the C quotient (stop - start) / step
-  \* fd: no element when the bounds lie against the direction of the step
-  IF fd /\ (diff = 0 \/ ((diff < 0) # (step < 0))) THEN 0
-  ELSE IF diff - step * q # 0                                 \* "ceil"
-       THEN (IF q + 1 < 0 THEN 0 ELSE q + 1)
-       ELSE (IF q < 0 THEN 0 ELSE q)
-ImplSlice_(start, stop, step, fd) ==
-  [start |-> start, stop |-> stop, step |-> step, len |-> ImplLen_(stop - start, step, TruncDiv(stop - start, step), fd)]
-ImplSliceS_(n, a, b, step, neg, low, fd) ==   \* neg: negative_step; low: the lower clamp (fc: it honours negative_step)
+ImplSlice_(start, stop, step, neg) ==     \* "Number of items, as in PySlice_AdjustIndices()"
+  [start |-> start, stop |-> stop, step |-> step,
+   len |-> IF neg THEN (IF stop < start THEN TruncDiv(start - stop - 1, -step) + 1 ELSE 0)
+           ELSE IF start < stop THEN TruncDiv(stop - start - 1, step) + 1 ELSE 0]
+ImplSliceS_(n, a, b, step, neg) ==        \* neg: negative_step
   ImplSlice_(IF a # NoneV
-             THEN (IF a < 0 THEN (IF a + n < 0 THEN low ELSE a + n)
+             THEN (IF a < 0 THEN (IF a + n < 0 THEN (IF neg THEN -1 ELSE 0) ELSE a + n)
                    ELSE IF a >= n THEN (IF neg THEN n - 1 ELSE n) ELSE a)
              ELSE (IF neg THEN n - 1 ELSE 0),
              IF b # NoneV
-             THEN (IF b < 0 THEN (IF b + n < 0 THEN low ELSE b + n)
-                   ELSE IF b > n THEN n ELSE b)
+             THEN (IF b < 0 THEN (IF b + n < 0 THEN (IF neg THEN -1 ELSE 0) ELSE b + n)
+                   ELSE IF b > n THEN n ELSE b)          \* also under a negative step (CPython: n - 1)
              ELSE (IF neg THEN -1 ELSE n),
-             step, fd)
-ImplSlice(n, a, b, c, fc, fd) ==    \* the is_slice branch; have_x is (x # NoneV); c # 0
-  ImplSliceS_(n, a, b, IF c # NoneV THEN c ELSE 1, c # NoneV /\ c < 0, IF fc /\ c # NoneV /\ c < 0 THEN -1 ELSE 0, fd)
+             step, neg)
+ImplSlice(n, a, b, c) ==    \* the is_slice branch; have_x is (x # NoneV); c # 0
+  ImplSliceS_(n, a, b, IF c # NoneV THEN c ELSE 1, c # NoneV /\ c < 0)
+\* the bounds, as the code normalises them, lie against the step by less than one step: the cells on
+\* which the former ceil((stop - start) / step) in C arithmetic produced one element instead of none
+AgainstSmall_(r) == /\ r.stop # r.start /\ ((r.stop - r.start < 0) # (r.step < 0))
+                    /\ Abs(r.stop - r.start) < Abs(r.step)
 
-AxisImpl(d, it, fc, fd) ==
+AxisImpl(d, it) ==
   IF it.k = "n" THEN Out("", 0, TRUE, 1, 0)
   ELSE IF it.k = "i" THEN          \* SliceIndex template / the !is_slice branch / buffer lookup
     IntIndex_(d, IF it.a < 0 THEN it.a + d.n ELSE it.a)
   ELSE IF it.c # NoneV /\ it.c = 0 THEN Out("ValueError", 0, FALSE, 0, 0)
   ELSE IF it = FullSl THEN Out("", 0, TRUE, d.n, d.s)      \* SimpleSlice template (object path: same result through the function)
-  ELSE OutOfSlice_(d, ImplSlice(d.n, it.a, it.b, it.c, fc, fd))
+  ELSE OutOfSlice_(d, ImplSlice(d.n, it.a, it.b, it.c))
 
 \* Compiler/MemoryView.py: unellipsify (typed path, index known at compile time)
 UnellCPad_(res, nd, nnone) ==           \* result_length < ndim: pad with full slices
@@ -197,10 +197,10 @@ ApplyRef_(vw, x) ==
   Combine(vw, Seqify([p \in DOMAIN x |-> AxisRef(IF x[p].k = "n" THEN NoDim ELSE vw.dims[AxisOf(x, p)], x[p])]))
 ApplyRef(vw, e) == ApplyRef_(vw, Expand(e, Len(vw.dims)))
 
-ApplyImpl_(vw, x, fc, fd) ==
-  Combine(vw, Seqify([p \in DOMAIN x |-> AxisImpl(IF x[p].k = "n" THEN NoDim ELSE vw.dims[AxisOf(x, p)], x[p], fc, fd)]))
-ApplyImpl(vw, e, path, fc, fd) ==
-  ApplyImpl_(vw, IF path = "typed" THEN UnellC(e, Len(vw.dims)) ELSE UnellR(e, Len(vw.dims)), fc, fd)
+ApplyImpl_(vw, x) ==
+  Combine(vw, Seqify([p \in DOMAIN x |-> AxisImpl(IF x[p].k = "n" THEN NoDim ELSE vw.dims[AxisOf(x, p)], x[p])]))
+ApplyImpl(vw, e, path) ==
+  ApplyImpl_(vw, IF path = "typed" THEN UnellC(e, Len(vw.dims)) ELSE UnellR(e, Len(vw.dims)))
 
 \* what can be observed of a result.  The stride of an axis of extent 0 is not part of it (no element is
 \* ever addressed with it; NumPy keeps the operand's stride there, Python's memoryview multiplies it by
@@ -211,17 +211,7 @@ Obs(r) == IF r.err # "" THEN [err |-> r.err, shape |-> <<>>, strides |-> <<>>, e
 
 HasNone(e) == \E p \in DOMAIN e : e[p].k = "n"
 Paths(e) == IF HasNone(e) THEN {"typed"} ELSE {"typed", "object"}
-ImplObs(vw, e, path, fc, fd) == Obs(ApplyImpl(vw, e, path, fc, fd))
-
-\* hazard class of a case (want: reference observation; p: observation of the transcription as it is, typed path)
-Hazard(vw, e, want, p) ==
-  LET okO(fc, fd) == "object" \in Paths(e) => ImplObs(vw, e, "object", fc, fd) = want
-      ok(fc, fd) == ImplObs(vw, e, "typed", fc, fd) = want /\ okO(fc, fd)
-  IN IF p = want /\ okO(FALSE, FALSE) THEN "none"
-     ELSE IF ok(TRUE, FALSE) THEN "clamp"
-     ELSE IF ok(FALSE, TRUE) THEN "div"
-     ELSE IF ok(TRUE, TRUE) THEN "clamp+div"
-     ELSE "unexplained"
+ImplObs(vw, e, path) == Obs(ApplyImpl(vw, e, path))
 
 ---------------------------------------------------------------------------
 (* menus *)
@@ -287,12 +277,9 @@ InitsT == I1("full1", 0..6, Layouts)
           \cup INd("nd", {<<0, 3>>, <<1, 1>>, <<2, 4>>, <<3, 2>>, <<4, 0>>, <<6, 1>>, <<1, 6>>}, Lays2)
           \cup INd("nd", {<<2, 1, 3>>, <<1, 2, 0>>, <<3, 3, 2>>, <<0, 2, 1>>}, Lays3)
 InitsT3 == I1("chain1", {3}, {"r"})       \* chains of three links
-InitsRefute == I1("full1", {2}, {"c"})
 
 ---------------------------------------------------------------------------
-NoExp == [err |-> "", shape |-> <<>>, strides |-> <<>>, el |-> <<>>, hz |-> "none",
-          perr |-> "", pshape |-> <<>>, pstrides |-> <<>>, pel |-> <<>>, safe |-> TRUE,
-          nbs |-> FALSE, nbe |-> FALSE, big |-> FALSE]
+NoExp == [err |-> "", shape |-> <<>>, strides |-> <<>>, el |-> <<>>, nbs |-> FALSE, nbe |-> FALSE, agd |-> FALSE]
 
 Init == /\ init \in Inits
         /\ lane \in Lanes(init)
@@ -301,31 +288,28 @@ Init == /\ init \in Inits
         /\ hist = <<>>
         /\ exp = NoExp
 
-MkExp_(o, hz, p, x, dims, base) ==
-  [err |-> o.err, shape |-> o.shape, strides |-> o.strides, el |-> o.el, hz |-> hz,
-   perr |-> p.err, pshape |-> p.shape, pstrides |-> p.strides, pel |-> p.el,
-   \* the code as it is stays inside the padded base (otherwise the binding must not run the case)
-   safe |-> \A j \in DOMAIN p.el : p.el[j] >= 0 /\ p.el[j] < base,
-   \* facts about the case that the root causes of the hazards refer to (x: the expanded expression)
+MkExp_(o, x, dims) ==
+  [err |-> o.err, shape |-> o.shape, strides |-> o.strides, el |-> o.el,
+   \* marks of the cells on which the code before 20608b6d6 deviated (x: the expanded expression)
    nbs |-> \E q \in DOMAIN x : x[q].k = "s" /\ x[q].c # NoneV /\ x[q].c < 0       \* negative step, start below -extent
                                /\ x[q].a # NoneV /\ x[q].a < -dims[AxisOf(x, q)].n,
    nbe |-> \E q \in DOMAIN x : x[q].k = "s" /\ x[q].c # NoneV /\ x[q].c < 0       \* negative step, stop below -extent
                                /\ x[q].b # NoneV /\ x[q].b < -dims[AxisOf(x, q)].n,
-   big |-> \E q \in DOMAIN x : x[q].k = "s" /\ x[q].c # NoneV /\ Abs(x[q].c) >= 2]
-Step___(e, r, o, p) ==
+   agd |-> \E q \in DOMAIN x : x[q].k = "s" /\ x[q].c # 0                          \* bounds against the step, by less than a step
+                               /\ AgainstSmall_(ImplSlice(dims[AxisOf(x, q)].n, x[q].a, x[q].b, x[q].c))]
+Step__(e, r, o) ==
   /\ prev' = view
   /\ view' = IF r.err = "" THEN [off |-> r.off, dims |-> r.dims] ELSE view
   /\ hist' = Append(hist, e)
-  /\ exp' = MkExp_(o, Hazard(view, e, o, p), p, Expand(e, Len(view.dims)), view.dims, BaseSize(init[2]))
+  /\ exp' = MkExp_(o, Expand(e, Len(view.dims)), view.dims)
   /\ UNCHANGED <<init, lane>>
-Step__(e, r, o) == Step___(e, r, o, ImplObs(view, e, "typed", FALSE, FALSE))
 Step_(e, r) == Step__(e, r, Obs(r))
 Step(e) == Step_(e, ApplyRef(view, e))
 
-\* a chain ends at an error, a hazard, a 0-dim result and at an empty result: the position of an empty view is
-\* not observable (the code as it is may place it one stride away from the reference), so nothing computed
-\* from it could be predicted; empty operands are covered by the input buffers of extent 0
-Open == Len(hist) < MaxDepth /\ exp.err = "" /\ exp.hz = "none" /\ view.dims # <<>> /\ (hist = <<>> \/ exp.el # <<>>)
+\* a chain ends at an error, a 0-dim result and at an empty result: the position of an empty view is not
+\* observable (the code places it at its own normalised start, which may differ from CPython's), so nothing
+\* computed from it could be predicted; empty operands are covered by the input buffers of extent 0
+Open == Len(hist) < MaxDepth /\ exp.err = "" /\ view.dims # <<>> /\ (hist = <<>> \/ exp.el # <<>>)
 
 Slice1 == /\ Open /\ Mode \in {"full1", "chain1"} /\ Len(view.dims) = 1
           /\ \E e \in SliceMenu(view.dims[1].n, Len(hist), lane) : Step(<<e>>)
@@ -359,33 +343,18 @@ SeqRange_(q) == {q[j] : j \in DOMAIN q}
 Subset_(q, all) == \A j \in DOMAIN q : q[j] \in all
 RefInBuffer == Stepped => Subset_(exp.el, SeqRange_(Elems(prev.off, prev.dims)))
 
-\* on the input buffers themselves even the deviating views of the hazards stay inside the padded
-\* base, so the prediction is deterministic (deeper in a chain the strides outgrow the padding:
-\* such cases carry safe = FALSE and are not executed)
-PredInBase == /\ Len(hist) = 1 => exp.safe
-              /\ exp.hz = "none" => exp.safe
-
-\* with both repairs the transcription agrees with the reference on every path
+\* the transcription of the code as it is agrees with the reference: typed path and memoryview-object path
 ExpObs == [err |-> exp.err, shape |-> exp.shape, strides |-> exp.strides, el |-> exp.el]
-PredObs == [err |-> exp.perr, shape |-> exp.pshape, strides |-> exp.pstrides, el |-> exp.pel]
-FixedImplAgrees == Stepped => \A path \in Paths(op) : ImplObs(prev, op, path, TRUE, TRUE) = ExpObs
-NoUnexplained == exp.hz # "unexplained"
-
-\* hazards lie only where the root causes say (this keeps the known-finding matchers narrow)
-HazardNecessary ==
-  /\ exp.hz \in {"clamp", "clamp+div"} => (exp.nbs \/ exp.nbe)
-  /\ exp.hz \in {"div", "clamp+div"} => exp.big
+ImplAgrees == Stepped => ImplObs(prev, op, "typed") = ExpObs
+ObjAgrees == (Stepped /\ "object" \in Paths(op)) => ImplObs(prev, op, "object") = ExpObs
+\* ... and a non-empty result even has the same position (offset), so chains may follow the reference view
+SameView == (Stepped /\ exp.err = "" /\ exp.el # <<>>) =>
+               \A path \in Paths(op) : ApplyImpl(prev, op, path) = [err |-> "", off |-> view.off, dims |-> view.dims]
 
 \* the two transcribed ellipsis expansions agree with the reference expansion
 UnellipsifyOK ==
   Stepped => /\ UnellC(op, Len(prev.dims)) = Expand(op, Len(prev.dims))
              /\ ~HasNone(op) => UnellR(op, Len(prev.dims)) = Expand(op, Len(prev.dims))
-
-\* typed and object path are modelled to agree (they share the per-dimension function)
-PathsAgree == (Stepped /\ "object" \in Paths(op)) => ImplObs(prev, op, "object", FALSE, FALSE) = PredObs
-
-\* expected to be REFUTED (MemSlice_refute.cfg): the code as it is equals the reference
-ImplAgrees == Stepped => PredObs = ExpObs
 
 ItemJ(it) == <<it.k, it.a, it.b, it.c>>
 Publish ==
